@@ -475,6 +475,22 @@ func c17R4(c *Ctx) {
 			// guard: some pure call on the word that is entailed true here and is a constant regexp match or similar
 			guard, gdesc := findNumberGuard(w, cls, param)
 			if guard == nil {
+				// a condition on the word that this rule cannot evaluate (a hand-written test, inlined): undecided, not a violation
+				opaque := ""
+				for q := w.parent[ret]; q != nil && q != cls.Node(); q = w.parent[q] {
+					is, ok := q.(*ast.IfStmt)
+					if !ok {
+						continue
+					}
+					cs := x.str(is.Cond)
+					if strings.Contains(cs, pS) && !strings.Contains(cs, "strconv.ParseFloat(") {
+						opaque = exprStr(is.Cond)
+					}
+				}
+				if opaque != "" {
+					c.undecided("C17.R4", "the number return of "+cls.Name+" ("+w.Pos(ret.Pos())+") is guarded by "+shorten(opaque, 80)+", a test of the word that is not a match against a constant regular expression: it cannot be evaluated on the probe set")
+					return true
+				}
 				c.ob("C17.R4", key, w.Pos(ret.Pos()), false, "a word becomes a number whenever strconv.ParseFloat accepts it (nan, inf, 1e3, 0x10, .5, 5., +1 would be numbers): no syntactic guard on the word")
 				return true
 			}
@@ -489,7 +505,7 @@ func c17R4(c *Ctx) {
 	if guard, _ := findNumberGuard(w, cls, param); guard != nil {
 		pat, ok := guardPattern(w, tp.TypesInfo, guard)
 		if !ok {
-			c.ob("C17.R4", cls.Name+"/guard-pattern", w.Pos(guard.Pos()), false, "the syntactic guard is not a match against a constant regular expression: it cannot be evaluated on the probe set")
+			c.undecided("C17.R4", "the syntactic guard "+exprStr(guard)+" ("+w.Pos(guard.Pos())+") is not a match against a constant regular expression: it cannot be evaluated on the probe set (a hand-written predicate is not interpreted)")
 		} else {
 			re, err := regexp.Compile(pat)
 			if err != nil {
@@ -531,7 +547,16 @@ func c17R4(c *Ctx) {
 						}
 						return true
 					})
-					if cmp == nil {
+					byFields := false
+					walkNoLit(f.Body, func(q ast.Node) bool {
+						if fc, ok := q.(*ast.CallExpr); ok && fieldsOnSpace(info, fc) {
+							byFields = true
+						}
+						return true
+					})
+					if cmp == nil && byFields {
+						c.ob("C17.R4", f.Name+"/empty-words-skipped", w.Pos(call.Pos()), true, "the words are the fields between runs of spaces (strings.Fields / FieldsFunc on ' '): none is empty")
+					} else if cmp == nil {
 						c.ob("C17.R4", f.Name+"/empty-words-skipped", w.Pos(call.Pos()), false, "empty words are not skipped: extra spaces between the words of a command would produce empty string arguments")
 					} else {
 						at := site{pos: call.Pos(), anc: call}
@@ -589,8 +614,10 @@ func c17R4(c *Ctx) {
 						if tv, ok := info.Types[call.Args[1]]; ok && tv.Value != nil && constant.StringVal(tv.Value) == " " {
 							okSplit = true
 						}
-					case "strings.Fields":
-						okSplit = true
+					case "strings.Fields", "strings.FieldsFunc":
+						if fieldsOnSpace(info, call) {
+							okSplit = true
+						}
 					}
 				}
 			}
@@ -598,6 +625,46 @@ func c17R4(c *Ctx) {
 		})
 		c.ob("C17.R4", split.Name+"/whitespace-separated", w.Pos(split.Decl.Pos()), okSplit, map[bool]string{true: "words are the space-separated pieces of the command text", false: "the command text is not split on spaces"}[okSplit])
 	}
+}
+
+// fieldsOnSpace: call is strings.Fields(x) or strings.FieldsFunc(x, func(r rune) bool { return r == ' ' }): the pieces between
+// (runs of) spaces, none of them empty.
+func fieldsOnSpace(info *types.Info, call *ast.CallExpr) bool {
+	callee := calleeOf(info, call)
+	if callee == nil {
+		return false
+	}
+	switch funcFullName(callee) {
+	case "strings.Fields":
+		return true
+	case "strings.FieldsFunc":
+		if len(call.Args) != 2 {
+			return false
+		}
+		lit, ok := unparen(call.Args[1]).(*ast.FuncLit)
+		if !ok || len(lit.Body.List) != 1 || lit.Type.Params == nil || len(lit.Type.Params.List) != 1 || len(lit.Type.Params.List[0].Names) != 1 {
+			return false
+		}
+		ret, ok := lit.Body.List[0].(*ast.ReturnStmt)
+		if !ok || len(ret.Results) != 1 {
+			return false
+		}
+		b, ok := unparen(ret.Results[0]).(*ast.BinaryExpr)
+		if !ok || b.Op != token.EQL {
+			return false
+		}
+		pobj := info.Defs[lit.Type.Params.List[0].Names[0]]
+		for _, side := range [][2]ast.Expr{{b.X, b.Y}, {b.Y, b.X}} {
+			if id := identOf(side[0]); id != nil && info.Uses[id] == pobj {
+				if tv, ok := info.Types[side[1]]; ok && tv.Value != nil {
+					if v, ok := constant.Int64Val(constant.ToInt(tv.Value)); ok && v == ' ' {
+						return true
+					}
+				}
+			}
+		}
+	}
+	return false
 }
 
 func strconvQuote(s string) string { return "\"" + s + "\"" }
@@ -621,6 +688,10 @@ func findNumberGuard(w *World, cls *Func, param *types.Var) (ast.Expr, string) {
 			return true
 		}
 		if funcFullName(callee) == "(*regexp.Regexp).MatchString" {
+			guard, desc = call, exprStr(call)
+		}
+		// a hand-written predicate of the module on the word
+		if g := w.byObj[callee]; g != nil && guard == nil && g.Sig().Results().Len() == 1 && typeStr(g.Sig().Results().At(0).Type()) == "bool" {
 			guard, desc = call, exprStr(call)
 		}
 		return true
